@@ -16,6 +16,7 @@
 (*   {id, op:"pickle" | "rebuild", t, r}                r = t              *)
 (*   {id, op:"eq", t, u, eq, hash}     eq = 1 <=> t = u;  eq = 1 => hash=1 *)
 (*   {id, op:"commute", t, eq, diff_q}  observed: subst;doit = doit;subst  *)
+(*   {id, op:"same", t, u, eq, hash}   t = u (two constructions of one instance) *)
 (***************************************************************************)
 EXTENDS ExprAlgebra, Json, IOUtils
 
@@ -84,6 +85,12 @@ StepCommute ==
   /\ Clause("SubstThenUnfoldEqualsUnfoldThenSubst", Rec.eq = 1, <<Rec.diff_q>>)
   /\ Stat("commute_observed", TRUE)
 
+\* two ways of constructing the same instance (positional arguments / keyword arguments in another order)
+StepSame ==
+  LET t == FromJ(Rec.t)  u == FromJ(Rec.u) IN
+  /\ Clause("KeywordConstructionEqualsPositional", t = u /\ Rec.eq = 1 /\ Rec.hash = 1, <<>>)
+  /\ Stat("same_observed", TRUE)
+
 Step ==
   /\ l <= Len(Log)
   /\ CASE Rec.op = "subst"   -> StepSubst
@@ -93,6 +100,7 @@ Step ==
        [] Rec.op \in {"pickle", "rebuild"} -> StepIdentity
        [] Rec.op = "eq"      -> StepEq
        [] Rec.op = "commute" -> StepCommute
+       [] Rec.op = "same"    -> StepSame
        [] OTHER -> Clause("KnownOp", FALSE, Rec.op)
   /\ l' = l + 1
 
